@@ -96,7 +96,7 @@ def prepare(master, tier, extra_bases=None):
 
 class Plan:
     __slots__ = ("index", "seed", "name", "image", "base_index", "faults", "fast_load", "get_code",
-                 "count_steps", "control", "base_desc")
+                 "count_steps", "control", "base_desc", "kind")
 
     def key_kinds(self):
         return tuple(sorted(set(f["kind"] for f in self.faults)))
@@ -109,6 +109,7 @@ def plan_run(i):
     p = Plan()
     p.index = i
     p.seed = seed
+    p.kind = "file"
     bases = W["bases"]
     # swarm: the subset of fault kinds enabled in this run
     kinds = list(simdisk.FAULT_KINDS)
@@ -125,6 +126,11 @@ def plan_run(i):
         p.base_index = -1
         p.name = rng.choice(["junk.pyc", "junk.pyo", "junk.pypy38.pyc"])
         p.base_desc = None
+        if rng.chance(1, 12):
+            # not even a regular file: what the path names is a directory, a FIFO, a dangling symlink, or a
+            # symlink to the stored bytes
+            p.kind = rng.choice(["dir", "fifo", "dangling", "symlink"])
+            p.faults = [dict(d, storage_object=p.kind)]
         return p
     # host-magic bases are over-sampled: they are the only ones that reach the fast path
     hm = W["host_magic"]
@@ -186,7 +192,7 @@ def _call_under_test(path, fast_load, get_code):
         return load_module(path, fast_load=fast_load, get_code=get_code)
 
 
-def exec_image(image, name, fast_load, get_code, count_steps, tag="r"):
+def exec_image(image, name, fast_load, get_code, count_steps, tag="r", kind="file"):
     """Run the real loader on one stored image.  Returns a record dict:
        outcome: "return" | "ImportError" | "exception" | "steps"
        violation: None or {"class":..., ...signature fields...}
@@ -194,8 +200,19 @@ def exec_image(image, name, fast_load, get_code, count_steps, tag="r"):
     d = os.path.join(W["rundir"], "%s-%d" % (tag, os.getpid()))
     os.makedirs(d, exist_ok=True)
     path = os.path.join(d, name)
-    with open(path, "wb") as f:
-        f.write(image)
+    if kind == "dir":
+        os.mkdir(path)
+    elif kind == "fifo":
+        os.mkfifo(path)
+    elif kind == "dangling":
+        os.symlink(os.path.join(d, "no-such-target"), path)
+    elif kind == "symlink":
+        with open(os.path.join(d, "target.bin"), "wb") as f:
+            f.write(image)
+        os.symlink(os.path.join(d, "target.bin"), path)
+    else:
+        with open(path, "wb") as f:
+            f.write(image)
     before = _snapshot(d)
     mods_before = set(sys.modules)
     old_out, old_err = sys.stdout, sys.stderr
@@ -272,7 +289,7 @@ def exec_image(image, name, fast_load, get_code, count_steps, tag="r"):
         for n in os.listdir(d):
             try:
                 os.unlink(os.path.join(d, n))
-            except IsADirectoryError:
+            except (IsADirectoryError, PermissionError):
                 import shutil
 
                 shutil.rmtree(os.path.join(d, n), ignore_errors=True)
@@ -299,6 +316,7 @@ def _compact(plan, rec):
         "fl": bool(plan.fast_load),
         "gc": bool(plan.get_code),
         "h": core.sha256_hex(plan.image)[:12],
+        "sk": plan.kind,
     }
 
 
@@ -324,7 +342,7 @@ def _batch_child(emit, indices, force_steps=False):
         # the parent re-executes the run alone under the deterministic step clock
         signal.setitimer(signal.ITIMER_REAL, WALL_GUARD_S)
         try:
-            rec = exec_image(p.image, p.name, p.fast_load, p.get_code, p.count_steps or force_steps)
+            rec = exec_image(p.image, p.name, p.fast_load, p.get_code, p.count_steps or force_steps, kind=p.kind)
         except _WallGuard:
             rec = {"outcome": "wall_guard", "violation": None, "site": None, "steps": None, "fast_path": False,
                    "exc": None}
@@ -340,7 +358,7 @@ def _sequence_child(emit, items):
     """several stored images loaded one after the other in ONE process (items: explicit images)"""
     for k, it in enumerate(items):
         rec = exec_image(core.unb64(it["image_b64"]), it["name"], it["fast_load"], it["get_code"],
-                         bool(it.get("count_steps")), tag="q")
+                         bool(it.get("count_steps")), tag="q", kind=it.get("kind", "file"))
         emit({"k": k, "o": rec["outcome"], "v": rec["violation"], "s": rec.get("site")})
     return len(items)
 
@@ -375,21 +393,21 @@ def run_sequence(items, wall=None):
 
 def _item_of(plan):
     return {"image_b64": core.b64(plan.image), "name": plan.name, "fast_load": plan.fast_load,
-            "get_code": plan.get_code, "run_index": plan.index, "count_steps": bool(plan.count_steps)}
+            "get_code": plan.get_code, "run_index": plan.index, "count_steps": bool(plan.count_steps), "kind": plan.kind}
 
 
-def _single_child(image_b64, name, fast_load, get_code, count_steps, marker):
+def _single_child(image_b64, name, fast_load, get_code, count_steps, marker, kind="file"):
     if marker:
         audit.STATE.marker_fd = os.open(marker, os.O_WRONLY | os.O_CREAT | os.O_TRUNC, 0o600)
-    rec = exec_image(core.unb64(image_b64), name, fast_load, get_code, count_steps, tag="s")
+    rec = exec_image(core.unb64(image_b64), name, fast_load, get_code, count_steps, tag="s", kind=kind)
     return rec
 
 
-def run_single_image(image, name, fast_load, get_code, force_steps, wall=90.0):
+def run_single_image(image, name, fast_load, get_code, force_steps, wall=90.0, kind="file"):
     """One image in its own fork of the zygote.  A signal or a stall is an outcome."""
     flog = os.path.join(W["rundir"], "fault-%d.log" % os.getpid())
     marker = os.path.join(W["rundir"], "marker-%d" % os.getpid())
-    r = core.fork_call(_single_child, (core.b64(image), name, fast_load, get_code, force_steps, marker),
+    r = core.fork_call(_single_child, (core.b64(image), name, fast_load, get_code, force_steps, marker, kind),
                        timeout=wall, faultlog_path=flog, quiet=True)
     entered = False
     try:
@@ -488,7 +506,7 @@ def run_shard(shard):
             else:
                 batch.append(i)
         for p in singles:
-            rec = run_single_image(p.image, p.name, p.fast_load, p.get_code, p.count_steps)
+            rec = run_single_image(p.image, p.name, p.fast_load, p.get_code, p.count_steps, kind=p.kind)
             account(agg, _compact(p, rec), p)
         if not batch:
             continue
@@ -506,7 +524,7 @@ def run_shard(shard):
                     c["o"] = "unconfirmed_slow"
                     account(agg, c, None)
                     continue
-                rec = run_single_image(p.image, p.name, p.fast_load, p.get_code, True, wall=25.0)
+                rec = run_single_image(p.image, p.name, p.fast_load, p.get_code, True, wall=25.0, kind=p.kind)
                 c2 = _compact(p, rec)
                 if c2.get("v") is not None:
                     slow_seen += 1
@@ -520,7 +538,7 @@ def run_shard(shard):
                     slow_seen += 1
                 # re-confirm in isolation (fresh fork); the isolated verdict is the verdict
                 p = plan_run(c["i"])
-                rec = run_single_image(p.image, p.name, p.fast_load, p.get_code, True)
+                rec = run_single_image(p.image, p.name, p.fast_load, p.get_code, True, kind=p.kind)
                 c2 = _compact(p, rec)
                 if c2.get("v") is None:
                     c2 = _sequence_verdict(agg, batch, c["i"], c2, {"batch_violation": c["v"]})
@@ -538,7 +556,7 @@ def run_shard(shard):
                 raise core.HarnessError("batch child failed: %s" % (r.value,))
             culprit = rest[0]
             p = plan_run(culprit)
-            rec = run_single_image(p.image, p.name, p.fast_load, p.get_code, True)
+            rec = run_single_image(p.image, p.name, p.fast_load, p.get_code, True, kind=p.kind)
             c2 = _compact(p, rec)
             if c2.get("v") is None:
                 c2 = _sequence_verdict(agg, batch, culprit, c2, {"batch_status": r.status})
@@ -625,6 +643,8 @@ def account(agg, c, plan):
         _probe(agg, "faulted image still loads")
     if c["n"] < 50:
         _probe(agg, "image shorter than 50 bytes")
+    if c.get("sk", "file") != "file":
+        _probe(agg, "path names a %s, not a regular file" % c["sk"])
     if c["v"] is not None:
         if len(agg["violations"]) < 200:
             agg["violations"].append({"i": c["i"], "v": c["v"], "k": c["k"], "n": c["n"], "o": o})
@@ -821,11 +841,11 @@ def _replay_path(master, tag):
     return os.path.join(core.REPLAY_DIR, "C11-%d-py%d%d-%s.json" % (master, sys.version_info[0], sys.version_info[1], tag))
 
 
-def _pred_for(sig, name, fast_load, get_code):
+def _pred_for(sig, name, fast_load, get_code, kind="file"):
     want = sig_key(sig)
 
     def pred(img):
-        rec = run_single_image(img, name, fast_load, get_code, True)
+        rec = run_single_image(img, name, fast_load, get_code, True, kind=kind)
         v = rec.get("violation")
         return v is not None and sig_key(signature(v)) == want
 
@@ -912,7 +932,7 @@ def report_violations(master, viols, findings, out_lines, evidence_v):
         if x.get("sequence"):
             _report_sequence(master, k, sig, x, group, out_lines, evidence_v)
             continue
-        pred = _pred_for(sig, x["name"], x["fast_load"], x["get_code"])
+        pred = _pred_for(sig, x["name"], x["fast_load"], x["get_code"], x.get("kind", "file"))
         img = x["image"]
         info = {"strategy": ["not minimised"], "tests": 0}
         if sig["class"] == "stall":
@@ -928,6 +948,7 @@ def report_violations(master, viols, findings, out_lines, evidence_v):
         core.write_json_atomic(path, {
             "property": PROP, "master_seed": master, "origin": x.get("origin"), "signature": sig,
             "violation": x["v"], "name": x["name"], "fast_load": x["fast_load"], "get_code": x["get_code"],
+            "storage_object": x.get("kind", "file"),
             "image_b64": core.b64(img), "image_len": len(img), "original_image_b64": core.b64(x["image"]),
             "minimisation": info, "instances_in_run": len(group),
             "host": "%d.%d.%d" % sys.version_info[:3],
@@ -965,7 +986,7 @@ def replay(path):
         rec = {"outcome": "sequence:" + (v["class"] if v else "clean")}
     else:
         img = core.unb64(r["image_b64"])
-        rec = run_single_image(img, r["name"], r["fast_load"], r["get_code"], True)
+        rec = run_single_image(img, r["name"], r["fast_load"], r["get_code"], True, kind=r.get("storage_object", "file"))
         v = rec.get("violation")
     want = sig_key(r["signature"])
     if v is not None and sig_key(signature(v)) == want:
@@ -1003,7 +1024,7 @@ def collect_violations(tot, sweep):
         p = plan_run(x["i"])
         base = W["bases"][p.base_index].data if p.base_index >= 0 else None
         viols.append({"v": x["v"], "image": p.image, "name": p.name, "fast_load": p.fast_load,
-                      "get_code": p.get_code, "base": base,
+                      "get_code": p.get_code, "base": base, "kind": p.kind,
                       "sequence": [_item_of(plan_run(i)) for i in x["v"]["sequence"]] if x["v"].get("sequence") else None,
                       "origin": {"run_index": x["i"], "run_seed": p.seed, "base": p.base_desc, "faults": p.faults}})
     for x in sweep["violations"]:
